@@ -8,7 +8,11 @@
 (*                        state space is finite, n is hidden by a VIEW       *)
 (*                        (three methods, one orientation code)              *)
 (*   MC_Pipeline_all_quick : the same over the reduced option alphabet       *)
-(*   MC_Pipeline_devMethod / _devLayout : deviation switches - must FAIL     *)
+(*   MC_Pipeline_mesh(_quick) : the mesh commands (mesh-to-precomputed,      *)
+(*                        link-mesh-fragments) interleaved with the volume   *)
+(*                        commands over a reduced option alphabet            *)
+(*   MC_Pipeline_devMethod / _devLayout / _devMesh : deviation switches -    *)
+(*                        must FAIL                                          *)
 EXTENDS Pipeline
 MCDirs == {"A", "B"}
 FullTypeEncs == {<<"image", "raw">>, <<"segmentation", "raw">>,
@@ -21,6 +25,16 @@ QuickMethods == {"auto", "majority"}
 MidMethods == {"auto", "majority", "stride"}
 FullShardings == {"nosh", "s110"}
 FullCodes == {"RPI", "LIP"}
+NoCodes == {}
+NoMesh == {}
+MeshDirs2 == {"m1", "m2"}
+MeshNames2 == {"f1", "f2"}
+MeshNames1 == {"f1"}
+Tables2 == {"t1", "t2"}
+Tables1 == {"t2"}
+MeshTypeEncs == {<<"segmentation", "raw">>}
+OneMethod == {"auto"}
+OneMax == {"all"}
 QuickCodes == {"RPI"}
 FullCfg == {[perfect |-> p, nall |-> k] : p \in BOOLEAN, k \in {1, 2, 3}}
 MidCfg == {[perfect |-> TRUE, nall |-> 3], [perfect |-> FALSE, nall |-> 2]}
